@@ -61,7 +61,9 @@ def prng1(ctx, fi: FuncInfo, rule: str = "PRNG-1") -> int:
         problems = []
         num = kws.get("num", pos[1] if len(pos) > 1 else None)
         if num is not None and not (num.op == "const" and num.args[0] == 2):
-            raise AnalysisError(f"{fi.qualname}:{line} random.split with num != 2 is not modelled")
+            # a key fanned out into a data-dependent number of sub-keys: linearity of this split is not modelled
+            ctx.rep.note(f"{fi.qualname}:{line} random.split with num != 2: linearity rule (PRNG-1) not applicable to this split")
+            continue
         if not pos or set(kws) - {"num"}:
             raise AnalysisError(f"{fi.qualname}:{line} unmodelled random.split call")
         K = pos[0]
